@@ -136,7 +136,8 @@ def run_shard(spec):
                 try:
                     for l, v in zip(args, vals):
                         trial.apply(["set", l["path"], ["v", enc(v)]])
-                    exp = trial.all_expected()
+                        exp = trial.all_expected()      # every intermediate state must be evaluable as well:
+                        # the manager assigns the values one by one
                 except Exception:
                     counters["vectors_discarded_python_raises"] = counters.get("vectors_discarded_python_raises", 0) + 1
                     continue
@@ -150,8 +151,13 @@ def run_shard(spec):
                     violations.append(dict(wit, what="C13 generated function raised %s: %s" % (type(exc).__name__, str(exc)[:200]),
                                            source=src, values=[enc(v) for v in vals]))
                     break
-                for l, v in zip(args, vals):
-                    twin.exec_op(["set", l["path"], ["v", enc(v)]])
+                try:
+                    for l, v in zip(args, vals):
+                        twin.exec_op(["set", l["path"], ["v", enc(v)]])
+                except Exception as exc:
+                    violations.append(dict(wit, what="C13 assigning the values through the manager raised %s: %s although Python evaluates every "
+                                                     "intermediate state" % (type(exc).__name__, str(exc)[:150]), values=[enc(v) for v in vals]))
+                    break
                 # keep the real manager's own bookkeeping in step (it was bypassed by the function): nothing to do,
                 # expression tasks hold no state
                 counters["argument_vectors_compared"] = counters.get("argument_vectors_compared", 0) + 1
